@@ -156,6 +156,28 @@ def link(name, harness_srcs, variant="plain", with_cli=False, libs=(), extra_def
     return exe
 
 
+def link_standalone(name, harness_srcs, variant="plain", defs=(), libs=()):
+    """Harness that #includes repo translation units itself (no pre-built repo objects)."""
+    hs = [os.path.join(HARNESS, s) for s in harness_srcs]
+    flags = VARIANTS[variant] + ["-D" + d for d in defs]
+    hkey = sha(repo_hash(), variant, " ".join(flags), " ".join(libs), name, *[open(h, "rb").read() for h in hs],
+               *[open(x, "rb").read() for x in glob.glob(os.path.join(HARNESS, "*.hpp"))])
+    d = os.path.join(BUILD, "bin", hkey)
+    exe = os.path.join(d, name)
+    if os.path.exists(exe):
+        os.utime(d)
+        return exe
+    os.makedirs(d, exist_ok=True)
+    cmd = ["g++", "-std=gnu++20", "-D" + GUARD, "-I" + os.path.join(REPO, "src"), "-I" + HARNESS, "-w"] + flags + hs + \
+          ["-o", exe + ".tmp", "-lpthread"] + list(libs)
+    p = subprocess.run(cmd, stdout=subprocess.PIPE, stderr=subprocess.PIPE)
+    if p.returncode != 0:
+        raise Infra("build failed: %s\n%s" % (name, p.stderr.decode(errors="replace")[-3000:]))
+    os.replace(exe + ".tmp", exe)
+    _gc_build()
+    return exe
+
+
 def build_cli(variant="plain"):
     """The real `bloch` CLI binary from the current tree with hooks on."""
     main = os.path.join(REPO, "src", "main.cpp")
